@@ -123,7 +123,13 @@ def finding_matches(entry, prop, oid, meta):
 EXTRA_BOUNDED = {
     'c06_csv': {'C07': ['future-rows-irrelevant', 'missing-cell-ffill', 'value-at-latest-observation', 'open-close-boundaries',
                         'row-order-independent', 'no-bar-before-t-gives-nan', 'cache-transparent', 'instant-not-wall-clock'],
-                'C18': ['cache-transparent', 'row-order-independent']},
+                'C18': ['cache-transparent', 'row-order-independent'],
+                # the sizers' "an unavailable price is rejected" rests on the source answering NaN before the first bar
+                'C10': ['no-bar-before-t-gives-nan'], 'C11': ['no-bar-before-t-gives-nan'],
+                # signals are fed the handler's (adjusted) close of the source the session was given
+                'C16': ['cache-transparent', 'adjustment']},
+    # a clock that can be walked only once meets no schedule and runs no session the second time
+    'c12_calendar': {'C13': ['every-traversal-is-complete'], 'C14': ['every-traversal-is-complete']},
     # the session module also decides the part of C13 that only a session can show: every scheduled instant is acted upon
     'c14_session': {'C13': ['rebalances-exactly-scheduled-after-burn-in', 'later-session-in-the-same-process-unaffected']},
 }
@@ -175,10 +181,12 @@ def check(prop, tier, seed, jobs):
             continue                  # canaries of a harness run with the properties it primarily serves
         for i in range(len(h.canaries)):
             tasks.append(('canary', h.name, i))
-    if tier == 'thorough':
-        for h in hs:
-            if h.conc:
-                tasks.append(('random', h.name, {'n': 3000, 'seed': seed}))
+    for h in hs:
+        if h.conc:
+            # run-time check of the same contracts on random concrete inputs (never counted as proved): a short run on every
+            # change - it is what exercises the clauses that only exist natively - and a long one plus the CPython cross-check
+            tasks.append(('random', h.name, {'n': 3000 if tier == 'thorough' else 60, 'seed': seed}))
+            if tier == 'thorough':
                 tasks.append(('crosscheck', h.name, {'n': 150, 'seed': seed}))
     bmods = bounded_modules(prop)
     for b in bmods:
